@@ -315,9 +315,64 @@ def routing_case(case):
     return out, n, len([1 for it in items if it[0] == 'done' and it[2] == 1])
 
 
+def parallel_desc(rng):
+    """a machine that starts in a parallel state with two compound regions; every event is declared on a random
+    subset of leaves / regions / the parallel state with deterministic conditions — the configurations in which the
+    four copies of `_can_trigger` have to look at EVERY region and at inherited transitions"""
+    d = flat.FlatDesc()
+    nxt = [0]
+
+    def cb(slot):
+        c = nxt[0]
+        nxt[0] += 1
+        d.cb_slot[c] = slot
+        return c
+    names = list(range(7))       # 0 P | 1 R1 (3, 4) | 2 R2 (5, 6)
+    parent = {0: None, 1: 0, 2: 0, 3: 1, 4: 1, 5: 2, 6: 2}
+    kids = {0: [1, 2], 1: [3, 4], 2: [5, 6]}
+    for i in names:
+        d.states.append({'name': i, 'on_enter': [], 'on_exit': [], 'ignore': None, 'final': False, 'parent': parent[i],
+                         'children': kids.get(i, []), 'parallel': i == 0,
+                         'init_child': (kids[i][0] if i in (1, 2) else None)})
+    d.initial = 0
+    d.prepare_event = [cb(SLOT['prepare_event'])] if rng.random() < 0.5 else []
+    for e in range(3):
+        ts = []
+        for src in rng.sample(names, rng.randint(1, 3)):
+            if src in (3, 4):
+                dest = rng.choice([3, 4, None])
+            elif src in (5, 6):
+                dest = rng.choice([5, 6, None])
+            else:
+                dest = rng.choice([None, src])
+            conds = []
+            for _ in range(rng.randint(0, 2)):
+                tg = rng.random() < 0.5
+                c = cb(SLOT['conditions'] if tg else SLOT['unless'])
+                conds.append((c, tg))
+                val = rng.random() < 0.5
+                for k in range(flat.DET_DEPTH):
+                    d.script[(c, k)] = ((), ('ret', val))
+            # every transition carries a `before` recorder: execution is observed directly, whatever the hierarchical
+            # engine then reports as the trigger's result (a later blocked region may overwrite it: C03's business)
+            ts.append({'source': src, 'dest': dest, 'prepare': [], 'conds': conds, 'before': [cb(SLOT['before'])],
+                       'after': [], 'local': None})
+        d.events.append((e, ts))
+    d.models = [0]
+    d.history = [(TRIGGER, 0, rng.randrange(3)) for _ in range(rng.randint(0, 2))]
+    d.nested = True
+    d.qmode = 0
+    d.queued = False
+    d.kinds = {}
+    d.const = {}
+    return d
+
+
 def build_case(kind, setup_idx, sub):
     rng = random.Random(sub)
     setup = SETUPS[setup_idx]
+    if kind == 'parallel':
+        return {'kind': kind, 'setup': setup_idx, 'sub': sub, '_d': parallel_desc(rng), '_setup': setup}
     kn = knobs_routing() if kind == 'routing' else knobs_predict()
     kn.p_bad_dest = 0.45 if kind == 'baddest' else 0.0
     d = flat.gen_flat(rng, kn)
@@ -342,16 +397,20 @@ def judge_twin(case):
     c = build_case(case['kind'], case['setup'], case['sub'])
     if 'history' in case:
         c['_d'].history = [tuple(x) for x in case['history']]
-    return {'predict': predict_case, 'routing': routing_case, 'baddest': baddest_case}[case['kind']](c)
+    return {'predict': predict_case, 'parallel': predict_case, 'routing': routing_case,
+            'baddest': baddest_case}[case['kind']](c)
 
 
 def twin_chunk(seed, idx, n, kind):
     rng = random.Random('C12/%s/%d/%d' % (kind, seed, idx))
     ex = Exploration()
     for _ in range(n):
-        setup_idx = rng.randrange(len(SETUPS))
+        # nested / parallel configurations get twice the share (that is where the copies of `_can_trigger` differ)
+        setup_idx = rng.choice([i for i, st in enumerate(SETUPS) for _ in range(2 if st[2] else 1)])
         if kind == 'baddest':
             setup_idx = rng.choice([i for i, st in enumerate(SETUPS) if not st[2]])
+        if kind == 'parallel':
+            setup_idx = rng.choice([i for i, st in enumerate(SETUPS) if st[2]])
         sub = rng.randrange(1 << 30)
         case = {'kind': kind, 'setup': setup_idx, 'sub': sub}
         try:
@@ -360,7 +419,7 @@ def twin_chunk(seed, idx, n, kind):
             raise
         ex.evaluations += 1
         ex.traces_validated += nchk
-        if (kind in ('predict', 'baddest') and 0 < ntrue < nchk) or (kind == 'routing' and ntrue > 0 and nchk > 0):
+        if (kind in ('predict', 'baddest', 'parallel') and 0 < ntrue < nchk) or (kind == 'routing' and ntrue > 0 and nchk > 0):
             ex.nontrivial.add('%s/%d/%d' % (kind, setup_idx, sub))
         h = ex.stats.setdefault(kind + '_setup', {})
         h[SETUPS[setup_idx][0]] = h.get(SETUPS[setup_idx][0], 0) + 1
@@ -374,7 +433,7 @@ def twin_chunk(seed, idx, n, kind):
 
 
 def shrink_twin(case):
-    if case['kind'] == 'predict':
+    if case['kind'] in ('predict', 'parallel'):
         return      # the re-entrant comparisons depend on the whole history; the case is already small
     c = build_case(case['kind'], case['setup'], case['sub'])
     hist = case.get('history', [list(x) for x in c['_d'].history])
@@ -411,9 +470,9 @@ class C12(flatcheck.FlatCheck):
 
     def explore(self, tier, seed):
         ex = flatcheck.FlatCheck.explore(self, tier, seed)
-        np_, nr = ((16, 10), (16, 40)) if tier == 'quick' else ((64, 40), (32, 200))
+        np_, nr = ((16, 16), (16, 40)) if tier == 'quick' else ((64, 40), (32, 200))
         payloads = ([(seed, i, np_[1], 'predict') for i in range(np_[0])] + [(seed, i, nr[1], 'routing') for i in range(nr[0])]
-                    + [(seed, i, nr[1], 'baddest') for i in range(8)])
+                    + [(seed, i, nr[1], 'baddest') for i in range(8)] + [(seed, i, np_[1] * 2, 'parallel') for i in range(16)])
         fails = []
         for part in runner.parallel(twin_chunk, payloads):
             fails += part.failures
